@@ -149,3 +149,11 @@ pub fn check_symmetry_laws<B: StrictOps>(a: &[u8], b: &[u8], c: &[u8], loc: &mut
     }
     loc.sample(|| json!({"a": a, "b": b, "c": c}));
 }
+
+pub fn check_assoc_triple<B: StrictOps>(f: &P, g: &P, h: &P, loc: &mut Local) {
+    let l = comp::<B>(&B::compose(f, g), &just(h));
+    let r = comp::<B>(&just(f), &B::compose(g, h));
+    loc.trans(4);
+    loc.nontrivial();
+    report(loc, "assoc", l, r, json!({"f": f, "g": g, "h": h}));
+}
